@@ -299,6 +299,7 @@ func runC17Protocol(c *Ctx) {
 		fault := c17Faults[i%len(c17Faults)]
 		commit := r.Bool()
 		explicit := i%5 == 4
+		viaPrepare := i%3 == 1
 		forget := fault == "none" && r.Chance(30) // phase two reaches a process that does not hold the connection
 		cs := genATCase(r, w, cid, ATGenOpts{})
 		if len(cs.Rows) < 2 {
@@ -376,7 +377,7 @@ func runC17Protocol(c *Ctx) {
 						execErr = err
 						return nil
 					}
-					if _, err = tx.ExecContext(ctx, q, args...); err != nil {
+					if _, err = c17Exec(ctx, tx, viaPrepare, q, args); err != nil {
 						execErr = err
 						tx.Rollback()
 						return nil
@@ -384,7 +385,7 @@ func runC17Protocol(c *Ctx) {
 					execErr = tx.Commit()
 					return nil
 				}
-				if pn := safeCall(func() { _, execErr = xa.ExecContext(ctx, q, args...) }); pn != "" {
+				if pn := safeCall(func() { _, execErr = c17Exec(ctx, xa, viaPrepare, q, args) }); pn != "" {
 					panic(pn)
 				}
 				return nil
@@ -591,4 +592,20 @@ func xaIDOf(sqlText string) string {
 		return m[1]
 	}
 	return ""
+}
+
+// c17Exec sends a statement as a text or, for every third case, as a prepared statement
+func c17Exec(ctx context.Context, x interface {
+	PrepareContext(ctx context.Context, query string) (*sql.Stmt, error)
+	ExecContext(ctx context.Context, query string, args ...interface{}) (sql.Result, error)
+}, viaPrepare bool, q string, args []interface{}) (sql.Result, error) {
+	if !viaPrepare {
+		return x.ExecContext(ctx, q, args...)
+	}
+	ps, err := x.PrepareContext(ctx, q)
+	if err != nil {
+		return nil, err
+	}
+	defer ps.Close()
+	return ps.ExecContext(ctx, args...)
 }
